@@ -23,10 +23,13 @@ def matchings(n):
     return rec(list(range(1, n + 1)))
 
 
-def seq_for(n, rng=None):
+def seq_for(n, rng=None, placeholders=True):
+    """Residue letters are opaque to the 2D code: upper case, lower case (the library writes modified
+    residues in lower case), N and the '?' placeholder of a missing residue occur."""
     if rng is None:
-        return "".join("ACGU"[i % 4] for i in range(1, n + 1))
-    return "".join(rng.choice("ACGU") for _ in range(n))
+        return "".join("ACGUgcNau?"[i % 10] for i in range(1, n + 1))
+    # the multi-strand TEXT format admits IUPAC letters only: no '?' there (placeholders=False)
+    return "".join(rng.choice("ACGUACGUacgun?" if placeholders else "ACGUACGUacgun") for _ in range(n))
 
 
 def random_stems(rng, nstems, maxlen=6, spacer=(0, 4), shape=None):
